@@ -19,7 +19,7 @@ done
 for p in "${pids[@]}"; do wait $p; done
 det=0; mis=0
 for k in $(seq 0 $((N-1))); do
-  grep -E "^(DETECTED|MISSED|SKIP)" .build/selftest-par-$k.log
+  grep -E "^(DETECTED|MISSED|SKIP|UNDECIDED)" .build/selftest-par-$k.log
   d=$(grep -c "^DETECTED" .build/selftest-par-$k.log); m=$(grep -c "^MISSED" .build/selftest-par-$k.log)
   det=$((det+d)); mis=$((mis+m))
 done
